@@ -76,6 +76,7 @@ py := mut any 0;
 px = py;
 py = px;
 pq := mut (int, int) (0, 0);
+cn := mut 0;
 cu := mut [1, 2.5][0];
 cv := mut [1, "s"][0];
 fnlist := mut [() -> mut int] [];
@@ -114,7 +115,7 @@ pub const CELLS: &[CellSpec] = &[
 ];
 pub const CC: usize = 9;
 /// further cells of the world that are not modelled: only their declared-type invariant is judged
-pub const EXTRA_CELLS: &[&str] = &["ps", "pt", "pf", "pn", "pu", "px", "py", "selfc", "fnlist", "cu", "cv", "pq"];
+pub const EXTRA_CELLS: &[&str] = &["ps", "pt", "pf", "pn", "pu", "px", "py", "selfc", "fnlist", "cu", "cv", "pq", "cn"];
 
 /// Operations on the tuple cell `pq`, whose writers always store two equal components: a reader
 /// that destructures or indexes ONE read of the cell sees equal components under every
@@ -126,6 +127,21 @@ pub const PQ_OPS: &[(&str, Option<i64>)] = &[
     ("{ (x, y) := *pq; x - y }", Some(0)),
     ("{ t := *pq; t.0 - t.1 }", Some(0)),
     ("{ (x, y) := *pq; u := (y, x); u.0 - u.1 }", Some(0)),
+];
+
+/// Assignments to the contended, un-modelled int cell `cn` whose target and right-hand side count
+/// their own evaluations in a cell local to the operation: each is evaluated exactly once, however
+/// the cell's lock is contended (the count is what the operation yields). The last two hold a
+/// guard of `cn` for a while.
+pub const CN_OPS: &[(&str, Option<i64>)] = &[
+    ("{ k := mut 0; bump := () -> int { k += 1; return 1 }; cn += bump(); *k }", Some(1)),
+    ("{ k := mut 0; bump := () -> int { k += 1; return 7 }; cn = bump(); *k }", Some(1)),
+    ("{ k := mut 0; tgt := () -> mut int { k += 1; return cn }; tgt() += 1; *k }", Some(1)),
+    ("{ k := mut 0; tgt := () -> mut int { k += 1; return cn }; bump := () -> int { k += 10; return 2 }; tgt() *= bump(); *k }", Some(11)),
+    ("{ k := mut 0; bump := () -> int { k += 1; return 3 }; cn ^= bump(); cn |= bump(); cn -= bump(); *k }", Some(3)),
+    ("{ k := mut 0; bump := () -> int { k += 1; return 1 }; cn /= bump(); cn %= bump() + 6; *k }", Some(2)),
+    ("{ std.convert.to_string(cn); std.convert.to_string([cn, cn]); 0 }", Some(0)),
+    ("{ x := *cn + *cn; 0 }", Some(0)),
 ];
 
 /// Well-typed operations on the un-modelled cells (the checker must accept them; afterwards every
@@ -726,6 +742,8 @@ pub struct GenCfg {
     pub allow_pull: bool,
     /// only pulls from the two-element iterator `it2`
     pub pull_heavy: bool,
+    /// every thread works on the contended counter `cn` (CN_OPS)
+    pub cn_heavy: bool,
 }
 
 pub fn gen_op(rng: &mut Rng, cfg: &GenCfg, unique: &mut i64) -> Op {
@@ -756,6 +774,10 @@ pub fn gen_op(rng: &mut Rng, cfg: &GenCfg, unique: &mut i64) -> Op {
                     _ => OpKind::PairTie,
                 },
             };
+        }
+        if cfg.cn_heavy || (roll >= 15 && roll < 17) {
+            let (text, r) = CN_OPS[rng.below(CN_OPS.len())];
+            return Op { cell: 0, path: 0, kind: OpKind::Valid(text.to_string(), r) };
         }
         if roll >= 12 && roll < 15 {
             let (text, r) = PQ_OPS[rng.below(PQ_OPS.len())];
